@@ -73,12 +73,33 @@ var commonAssumptions = []string{
 	"harness is compiled into the package through `go test -overlay` from /repo's current working tree",
 }
 
+var e1Assumptions = append([]string{
+	"media bytes are read back with mediacommon's decoders (fmp4.Parts / fmp4.Init / mpegts.Reader); the muxer uses mediacommon's encoders",
+	"H264/H265 units carry a slice NALU and parameter sets without picture reordering (DTS = PTS); Track.ClockRate is the codec's natural rate",
+}, commonAssumptions...)
+
 var schedAssumptions = append([]string{
 	"sequential consistency at statement granularity: scheduling points are the library's own synchronisation operations (mutex, rwmutex, cond, waitgroup, channel, select, context cancel, go) plus configured statement-level points",
 	"testing/synctest's definition of durably blocked and its fake clock; a timer never fires while a thread is still enabled",
 }, commonAssumptions...)
 
 var specs = []spec{
+	{ID: "C01", Pkg: ".", Level: "exploration", Procs: 2,
+		Rule:        "words over a finite write alphabet (timing family: delta in {0, one frame, S-1 tick, S, 1.4 S} x {random access, not}; parameter family: {one frame, S} x {RA with / without inline parameter sets, non-RA, parameter switch on RA / on non-RA}; interleaving family: all tracks x 2 deltas x 2 kinds, 1- and 2-AU audio writes; audio family) enumerated exhaustively as depth-N trees (from the initial state, after a regular preamble that fills the window, from negative start times) and as all periodic words of period <= 2 (3) run for 12 (16) x SegmentCount writes, on a configuration grid (variant x track set incl. audio-before-video x codecs x RAM/disk x SegmentCount); after every write everything the muxer advertises is fetched through Handle, decoded with mediacommon and compared with a reference model of the written stream; distinct = distinct (configuration, final playlists, emitted-unit counts)",
+		Assumptions: e1Assumptions},
+	{ID: "C02", Pkg: ".", Level: "exploration", Procs: 2,
+		Rule:        "words over a finite write alphabet (timing family: delta in {0, one frame, S-1 tick, S, 1.4 S} x {random access, not}; parameter family: {one frame, S} x {RA with / without inline parameter sets, non-RA, parameter switch on RA / on non-RA}; interleaving family: all tracks x 2 deltas x 2 kinds, 1- and 2-AU audio writes; audio family) enumerated exhaustively as depth-N trees (from the initial state, after a regular preamble that fills the window, from negative start times) and as all periodic words of period <= 2 (3) run for 12 (16) x SegmentCount writes, on a configuration grid (variant x track set incl. audio-before-video x codecs x RAM/disk x SegmentCount); after every write everything the muxer advertises is fetched through Handle, decoded with mediacommon and compared with a reference model of the written stream; distinct = distinct (configuration, final playlists, emitted-unit counts)",
+		Assumptions: e1Assumptions},
+	{ID: "C03", Pkg: ".", Level: "exploration", Procs: 2,
+		Rule:        "words over a finite write alphabet (timing family: delta in {0, one frame, S-1 tick, S, 1.4 S} x {random access, not}; parameter family: {one frame, S} x {RA with / without inline parameter sets, non-RA, parameter switch on RA / on non-RA}; interleaving family: all tracks x 2 deltas x 2 kinds, 1- and 2-AU audio writes; audio family) enumerated exhaustively as depth-N trees (from the initial state, after a regular preamble that fills the window, from negative start times) and as all periodic words of period <= 2 (3) run for 12 (16) x SegmentCount writes, on a configuration grid (variant x track set incl. audio-before-video x codecs x RAM/disk x SegmentCount); after every write everything the muxer advertises is fetched through Handle, decoded with mediacommon and compared with a reference model of the written stream; distinct = distinct (configuration, final playlists, emitted-unit counts)",
+		Assumptions: e1Assumptions},
+	{ID: "C04", Pkg: ".", Level: "exploration", Procs: 2,
+		Rule:        "words over a finite write alphabet (timing family: delta in {0, one frame, S-1 tick, S, 1.4 S} x {random access, not}; parameter family: {one frame, S} x {RA with / without inline parameter sets, non-RA, parameter switch on RA / on non-RA}; interleaving family: all tracks x 2 deltas x 2 kinds, 1- and 2-AU audio writes; audio family) enumerated exhaustively as depth-N trees (from the initial state, after a regular preamble that fills the window, from negative start times) and as all periodic words of period <= 2 (3) run for 12 (16) x SegmentCount writes, on a configuration grid (variant x track set incl. audio-before-video x codecs x RAM/disk x SegmentCount); after every write everything the muxer advertises is fetched through Handle, decoded with mediacommon and compared with a reference model of the written stream; distinct = distinct (configuration, final playlists, emitted-unit counts)",
+		Assumptions: e1Assumptions},
+	{ID: "C05", Pkg: ".", Level: "exploration", Procs: 2,
+		Rule:        "words over a finite write alphabet (timing family: delta in {0, one frame, S-1 tick, S, 1.4 S} x {random access, not}; parameter family: {one frame, S} x {RA with / without inline parameter sets, non-RA, parameter switch on RA / on non-RA}; interleaving family: all tracks x 2 deltas x 2 kinds, 1- and 2-AU audio writes; audio family) enumerated exhaustively as depth-N trees (from the initial state, after a regular preamble that fills the window, from negative start times) and as all periodic words of period <= 2 (3) run for 12 (16) x SegmentCount writes, on a configuration grid (variant x track set incl. audio-before-video x codecs x RAM/disk x SegmentCount); after every write everything the muxer advertises is fetched through Handle, decoded with mediacommon and compared with a reference model of the written stream; distinct = distinct (configuration, final playlists, emitted-unit counts)",
+		Assumptions: e1Assumptions},
+
 	{ID: "C06", Pkg: ".", Level: "model_checking", Instrument: true, RacePass: false, Procs: 1,
 		Rule:        "schedule half: all interleavings with at most b deviations (2 quick / 3 thorough for two requesters, one more for a single requester) of a writer feeding k in {1,2,3,5} frames from three positions (part about to be published, just published, segment about to complete) with 1-2 concurrent requests drawn from {blocking reload for the next part / the part after / the open segment / the next segment / part 0 of it / a part index past the end, preload hint, plain playlist, already published, too far, expired, hint after next}; sequential half: every (msn, part) of a grid relative to the playlist at every node of the Low-Latency write trees, malformed directives, delta updates against the full playlist of the same instant; distinct = distinct (scenario, statuses and completion points)",
 		Assumptions: schedAssumptions},
